@@ -96,9 +96,11 @@ func (m *MoofBox) Size() uint64 {
 
 // Encode - write moof after updating trun dataoffset
 func (m *MoofBox) Encode(w io.Writer) error {
-	for _, trun := range m.Traf.Truns {
-		if trun.HasDataOffset() && trun.DataOffset == 0 {
-			return fmt.Errorf("dataoffset in trun not set")
+	for _, traf := range m.Trafs {
+		for _, trun := range traf.Truns {
+			if trun.HasDataOffset() && trun.DataOffset == 0 {
+				return fmt.Errorf("dataoffset in trun not set")
+			}
 		}
 	}
 	err := EncodeHeader(m, w)
@@ -116,9 +118,11 @@ func (m *MoofBox) Encode(w io.Writer) error {
 
 // Encode - write moof after updating trun dataoffset
 func (m *MoofBox) EncodeSW(sw bits.SliceWriter) error {
-	for _, trun := range m.Traf.Truns {
-		if trun.HasDataOffset() && trun.DataOffset == 0 {
-			return fmt.Errorf("dataoffset in trun not set")
+	for _, traf := range m.Trafs {
+		for _, trun := range traf.Truns {
+			if trun.HasDataOffset() && trun.DataOffset == 0 {
+				return fmt.Errorf("dataoffset in trun not set")
+			}
 		}
 	}
 	err := EncodeHeaderSW(m, sw)
